@@ -53,8 +53,8 @@ def regex_sites(cx, port, mods=None):
                 d = dotted(c.func) or ''
                 if port == 'py' and d.startswith('re.') and d.split('.')[1] in ('match', 'search', 'sub', 'finditer', 'findall', 'compile', 'fullmatch', 'split') and c.args:
                     pat = _pattern_value(c.args[0], local)
-                    ftxt = ' '.join(node_text(a) for a in c.args[2:] if 're.' in node_text(a)) + ' ' + ' '.join(node_text(k.value) for k in c.keywords if k.arg == 'flags')
-                    # re.sub(p, r, s, count?, flags?) positional flags are at index 4; re.search(p, s, flags) at index 2
+                    ftxt = ' '.join(node_text(a) for a in c.args[(1 if d == 're.compile' else 2):] if 're.' in node_text(a)) + ' ' + ' '.join(node_text(k.value) for k in c.keywords if k.arg == 'flags')
+                    # re.sub(p, r, s, count?, flags?) positional flags are at index 4; re.search(p, s, flags) at index 2; re.compile(p, flags) at index 1
                     ic = 'IGNORECASE' in ftxt or 're.I' in ftxt.split() or (pat is not None and pat.startswith('(?i)'))
                     out.append(RegexSite(c, fd, pat, ic, ftxt.strip(), d))
                 elif port == 'py' and isinstance(c.func, ast.Attribute) and isinstance(c.func.value, ast.Name) and c.func.value.id in compiled and c.func.attr in ('match', 'search', 'sub', 'finditer', 'findall', 'fullmatch', 'split'):
